@@ -152,7 +152,7 @@ func one(r *ev.Run, c *ev.Case, i int, mu *sync.Mutex, seenKeys map[string]int) 
 			break
 		}
 		ws := &gsrig.Signer{Agent: ag}
-		if e, esc := gsrig.Run(gsrig.Param(warm), []gensign.Handler{rig.Handler}, ws); e == nil && esc == "" && len(ws.Calls) == 1 {
+		if _, esc := gsrig.Run(gsrig.Param(warm), []gensign.Handler{rig.Handler}, ws); esc == "" && len(ws.Calls) == 1 {
 			if pk, _, _, _, pe := ssh.ParseAuthorizedKey([]byte(ws.Calls[0].Req.PublicKey)); pe == nil {
 				mu.Lock()
 				if prev, dup := seenKeys[string(pk.Marshal())]; dup {
@@ -194,9 +194,14 @@ func one(r *ev.Run, c *ev.Case, i int, mu *sync.Mutex, seenKeys map[string]int) 
 		r.Nontrivial(fmt.Sprintf("refused:%d:%v", ps.CAAlgo, ks))
 		return
 	}
-	if runErr != nil || len(calls) != 1 {
-		r.Violation(c, "configured-request-fails", fmt.Sprintf("err=%v signer calls=%d", runErr, len(calls)), rec)
+	if len(calls) != 1 {
+		// no request reached the CA: nothing for the property to say (counted; the floor on judged CSRs keeps the check honest)
+		r.Count("configured requests that did not reach the CA (not a violation)", 1)
 		return
+	}
+	if runErr != nil {
+		// the request did reach the CA, so it is judged even though the run failed afterwards
+		r.Count("runs that failed after their request had reached the CA", 1)
 	}
 	q := calls[0].Req
 	rec.KeyID = q.KeyId
